@@ -833,6 +833,51 @@ func TestC15(t *testing.T) {
 		}
 	}
 
+	// ---- directed: exactly MaxLinks-1 .. MaxLinks+2 entries, sharded and basic, then replace / add / remove ----
+	{
+		nm := &names{digest: map[string][]byte{}}
+		for i := 0; i < 12; i++ {
+			n := fmt.Sprintf("n%02d", i)
+			nm.list = append(nm.list, n)
+			nm.digest[n] = hamt.VerifHashOf(n)
+		}
+		for mode := 0; mode < 3; mode++ {
+			for _, m := range []int{1, 2, 3, 5} {
+				for _, th := range []int{0, 2000} { // global threshold (large) / a per-directory threshold (large)
+					c := config{width: 8, maxLinks: m, mode: uio.SizeEstimationMode(mode), thresh: th, global: 256 * 1024}
+					var sc []string
+					add := func(i, v int) { sc = append(sc, fmt.Sprintf("add n%02d %d", i, v%len(p.nodes))) }
+					rm := func(i int) { sc = append(sc, fmt.Sprintf("rm n%02d", i)) }
+					// grow to MaxLinks+2, replacing an existing name at every count on the way up
+					for i := 0; i < m+2; i++ {
+						add(i, i)
+						add(0, i+7) // replace at count i+1
+						if i >= m-2 {
+							sc = append(sc, "dump")
+						}
+					}
+					// shrink to MaxLinks-1, replacing at every count on the way down (M+1 -> replace, M -> replace, ...)
+					for i := m + 1; i >= m-1 && i >= 1; i-- {
+						rm(i)
+						add(0, i+3)
+						sc = append(sc, "dump")
+					}
+					// and up again across the boundary, with a removal of a missing name in between
+					rm(11)
+					for i := 1; i < m+2; i++ {
+						if i >= m-1 {
+							add(i, i+1)
+							add(i, i+2)
+							sc = append(sc, "links")
+						}
+					}
+					sc = append(sc, "foreach", "dump")
+					addHist(runHistory(t, r, p, c, nm, 0, sc), nm, "directed-maxlinks")
+				}
+			}
+		}
+	}
+
 	// ---- random histories ----
 	n := e.Pick(360, 2000)
 	for i := 0; i < n; i++ {
